@@ -126,3 +126,15 @@ package actionlint
 //@ func (*RuleShellcheck).VisitWorkflowPre
 //@   props C20 C09
 //@   ensures (n.Defaults != nil && n.Defaults.Run != nil && n.Defaults.Run.Shell != nil) ==> rule.workflowShell == n.Defaults.Run.Shell.Value
+
+// C20: the runner of a tool is created with the output mode asked for (pyflakes reports syntax errors on
+// stderr: its runner combines the two streams)
+//@ func (*concurrentProcess).newCommandRunner
+//@   props C20
+//@   ensures result0 != nil ==> result0.combineOutput == combineOutput && result0.proc == proc
+//@ func NewRulePyflakes
+//@   props C20
+//@   at_call (*concurrentProcess).newCommandRunner: combineOutput
+//@ func NewRuleShellcheck
+//@   props C20
+//@   at_call (*concurrentProcess).newCommandRunner: !combineOutput
